@@ -5,7 +5,7 @@ from props import c09
 
 
 def knobs(r, i):
-    return {"cancelable": True, "threads": 1 + i % 3, "cycle_density": 1 + i % 3, "exits": i % 3 == 0, "multi": i % 4 == 0}
+    return {"cancelable": True, "threads": 1 + i % 3, "cycle_density": 1 + i % 3, "exits": i % 3 == 0, "multi": i % 4 == 0, "unwinds": i % 3 == 1}
 
 
 def run(v, tier, seed, replay):
